@@ -228,6 +228,26 @@ def rule_propagation_chain(ctx):
                 ctx.check(eff == ["file.set_state", "self.mark_consuming_steps_pending"], mo.fq, "BUILT: outdated and consumers re-pended", f"effects {eff}", "recurses into consumers")
             elif st == FS.OUTDATED:
                 ctx.check(eff == [] and s != "raise", mo.fq, "OUTDATED: nothing to do", f"effects {eff}", "no-op")
+    # every Python-level move of a file into the available state BUILT is followed, on the same path and for the
+    # same file, by the consumer notification (it is what clears `deferred` of a step parked on that file)
+    n_built = 0
+    for fi in ctx.prog.all_functions():
+        if "FileState.BUILT" not in fi.module.text:
+            continue
+        sets = [c for c in calls_in(fi.node) if callee_name(c) == "set_state" and len(c.args) >= 1 and ast.unparse(c.args[0]) == "FileState.BUILT"]
+        if not sets:
+            continue
+        for tr, s in flow.paths_of(fi):
+            for k, e in enumerate(tr):
+                if e[0] == "call" and any(e[2] is c for c in sets):
+                    n_built += 1
+                    recv = ast.unparse(e[2].func.value)
+                    later = [x[2] for x in tr[k + 1:] if x[0] == "call" and callee_name(x[2]) == "mark_consuming_steps_pending"]
+                    ok = any(len(c.args) == 1 and ast.unparse(c.args[0]) == recv for c in later)
+                    ctx.check(ok, fi.fq, f"{recv} -> BUILT is followed by mark_consuming_steps_pending({recv})",
+                              "a file is revalidated as BUILT without notifying its consumers: a step deferred on it stays parked", "paired", where=ctx.where_of(fi, e[2]))
+    if n_built == 0:
+        raise AnalysisError("no Python-level set_state(FileState.BUILT) site found (revalidation anchor moved)")
     mcp = ctx.prog.func("workflow.Workflow.mark_consuming_steps_pending")
     ctx.check("self.mark_step_pending(step)" in ast.unparse(mcp.node), mcp.fq, "re-pends every consuming step", "consumers not re-pended", "mark_step_pending")
     png = ctx.prog.func("workflow.Workflow.persist_nglob_matches")
@@ -250,6 +270,18 @@ def rule_recycle_compare(ctx):
     rets = [n for n in ast.walk(cr.node) if isinstance(n, ast.Return)]
     falses = [r for r in rets if isinstance(r.value, ast.Constant) and r.value.value is False]
     ctx.check(len(falses) == 3 and len(rets) == 4, cr.fq, "three early `return False` and a final comparison", f"{len(falses)} early returns / {len(rets)} returns", "4 comparisons")
+    # what can_recycle does not compare is overwritten from the new declaration, on every path of after_recycle
+    ar = ctx.prog.func("step.Step.after_recycle")
+    for tr, st in flow.paths_of(ar):
+        if st == "raise":
+            continue
+        got = {e[1]: e[2] for e in tr if e[0] == "call"}
+        for setter, arg in (("self.set_resources", "resources"), ("self.set_env_overrides", "env_overrides")):
+            c = got.get(setter)
+            ctx.check(c is not None and len(c.args) == 1 and ast.unparse(c.args[0]) == arg, ar.fq, f"{setter.split('.')[1]}({arg}) on every path",
+                      f"a recycled step keeps the {arg} of its previous declaration on some path: the graph differs from a build from scratch", "unconditional", where=ctx.where_of(ar))
+    upd = [s for s in ctx.sql.stmts_in(ar.fq) if s.kind == "UPDATE"]
+    ctx.check(any(re.search(r"SET need = \? , shell = \?", s.text) for s in upd), ar.fq, "need and shell are overwritten from the new declaration", "need/shell of the previous declaration survive a recycle", "UPDATE step SET need, shell")
     ds = ctx.prog.func("workflow.Workflow.define_step")
     call = [c for c in calls_in(ds.node) if callee_name(c) == "try_recycle"]
     if not call:
@@ -319,7 +351,9 @@ MUTANTS = [
     Mutant("confirmed-update-ignored", "workflow.py", in_function("Workflow.handle_updated_file", lambda s: s.replace("        if state == FileState.CONFIRMED:\n            self.mark_consuming_steps_pending(file)\n        elif", "        if", 1) if "if state == FileState.CONFIRMED:" in s else None), ("R-C01-8",)),
     Mutant("completed-not-propagated", "workflow.py", in_function("Workflow.update_file_hashes", replace_once('        for i, path in action_lists["completed"]:\n            self.mark_consuming_steps_pending(File(self, i, path))\n', "")), ("R-C01-8",)),
     Mutant("outdated-not-recursive", "workflow.py", in_function("Workflow.mark_file_outdated", replace_once("            file.set_state(FileState.OUTDATED)\n            self.mark_consuming_steps_pending(file)\n", "            file.set_state(FileState.OUTDATED)\n")), ("R-C01-8",)),
+    Mutant("revalidated-not-propagated", "step.py", in_function("Step.mark_completed", replace_once("                    file.set_state(FileState.BUILT)\n                    self.graph.mark_consuming_steps_pending(file)\n", "                    file.set_state(FileState.BUILT)\n")), ("R-C01-8",)),
     Mutant("repend-running", "workflow.py", in_function("Workflow.mark_step_pending", replace_once("        if state in (StepState.RUNNING, StepState.CHECKING):\n            return\n", "")), ("R-C01-8",)),
+    Mutant("recycle-keeps-overrides", "step.py", in_function("Step.after_recycle", replace_once("        self.set_env_overrides(env_overrides)\n", "        if state == StepState.FAILED:\n            self.set_env_overrides(env_overrides)\n")), ("R-C01-9",)),
     Mutant("recycle-ignores-env", "step.py", in_function("Step.can_recycle", replace_once("        if old_env_vars != sorted(env_deps):\n            return False\n", "")), ("R-C01-9",)),
     Mutant("recycle-trusts-built", "file.py", in_function("File.initialize_row", replace_once("        if state == FileState.BUILT:\n            self.graph.mark_file_outdated(self)\n", "")), ("R-C01-9",)),
 ]
